@@ -25,6 +25,8 @@ pub enum Pred {
     DropAll,
     /// keep everything
     KeepAll,
+    /// keep everything except these two keys
+    DropKeys(u32, u32),
 }
 
 impl Pred {
@@ -34,6 +36,7 @@ impl Pred {
             Pred::ValEven => vid % 2 == 0,
             Pred::DropAll => false,
             Pred::KeepAll => true,
+            Pred::DropKeys(a, b) => k != a && k != b,
         }
     }
 }
@@ -131,6 +134,7 @@ fn pred_j(p: Pred) -> Value {
         Pred::ValEven => json!(["valeven"]),
         Pred::DropAll => json!(["dropall"]),
         Pred::KeepAll => json!(["keepall"]),
+        Pred::DropKeys(a, b) => json!(["dropkeys", a, b]),
     }
 }
 fn pred_p(v: &Value) -> Option<Pred> {
@@ -140,6 +144,7 @@ fn pred_p(v: &Value) -> Option<Pred> {
         "valeven" => Pred::ValEven,
         "dropall" => Pred::DropAll,
         "keepall" => Pred::KeepAll,
+        "dropkeys" => Pred::DropKeys(a.get(1)?.as_u64()? as u32, a.get(2)?.as_u64()? as u32),
         _ => return None,
     })
 }
